@@ -4,7 +4,7 @@
    harness/impl/heap_impl.py on the real object graph.  Definitions + the lemma relating [nstep] to [Heap.step]. *)
 From Coq Require Import List Arith Bool PeanoNat.
 Import ListNotations.
-From MG Require Import Model.Heap.
+From MG Require Import Model.Heap Model.HeapShape.
 
 Inductive nstmt :=
 | NLeaf
@@ -12,6 +12,7 @@ Inductive nstmt :=
 | NView (k : nat) (par : nat)
 | NInplace (m : nat) (k : nat) (args : list (option nat)) (masked fails : bool)
 | NClear (t : nat)
+| NSetShape (t : nat) (fails : bool)                (* t.shape = newshape *)
 | NBackward (t : nat).                              (* t.backward(): gradients for everything upstream, then clear_graph *)
 
 Definition nth_id (names : list id) (i : nat) : option id := nth_error names i.
@@ -61,7 +62,7 @@ Definition to_stmt (s : nstmt) (ids : list id) (names : list id) : option stmt :
   | NView k p => t <- nth_id names p ;; Some (SView k t)
   | NInplace m k _ masked fails => t <- nth_id names m ;; Some (SInplace t k ids masked fails)
   | NClear t => x <- nth_id names t ;; Some (SClear x)
-  | NBackward _ => None
+  | NBackward _ | NSetShape _ _ => None
   end.
 
 (* result: new heap, new name list, whether the statement raised *)
@@ -91,6 +92,13 @@ Definition nstep (h : heap) (names : list id) (s : nstmt) : option (heap * list 
     t <- nth_id names x ;;
     h' <- clear_graph (S (length (h_t h) + length (h_o h))) h t ;;
     Some (h', names, false)
+  | NSetShape x fails =>
+    t <- nth_id names x ;;
+    o <- set_shape h t fails ;;
+    match o with
+    | Done h2 => Some (h2, names, false)
+    | Raised h2 => Some (h2, names, true)
+    end
   | NBackward _ => None      (* needs the set of constant tensors: see nstep2 *)
   end.
 
@@ -211,7 +219,7 @@ Fixpoint model_canons (st : heap * list id * list id) (ss : list nstmt) : list (
 (* nstep is Heap.step on the resolved statement (the operands that are not tensors having been allocated first) *)
 Lemma nstep_is_step h names s :
   match s with
-  | NLeaf | NBackward _ => True
+  | NLeaf | NBackward _ | NSetShape _ _ => True
   | NOp _ args | NInplace _ _ args _ _ =>
     forall h1 ids, resolve h names args = Some (h1, ids) ->
     forall st, to_stmt s ids names = Some st ->
@@ -229,7 +237,7 @@ Lemma nstep_is_step h names s :
     end
   end.
 Proof.
-  destruct s as [|k args|k p|m k args masked fails|x|x]; cbn [nstep to_stmt step]; auto.
+  destruct s as [|k args|k p|m k args masked fails|x|x fl|x]; cbn [nstep to_stmt step]; auto.
   - intros h1 ids Hr st Hst. inversion Hst; subst; clear Hst. rewrite Hr. cbn [bind step].
     destruct (new_array h1 None None) as [h2 a]. destruct (apply_op h2 k ids [] a) as [[h3 t]|]; cbn; auto.
   - intros st Hst. destruct (nth_id names p) as [t|]; cbn in Hst; [|discriminate]. inversion Hst; subst; clear Hst.
